@@ -608,25 +608,14 @@ func throughString(v any, q []any) bool {
 			f, ok := toF(k)
 			if !ok {
 				if m, ok := k.(map[string]any); ok {
-					s, _ := toF(m["start"])
-					e, eok := toF(m["end"])
-					n := float64(len(x))
-					if s < 0 {
-						s += n
+					st, en := 0, len(x)
+					if sv, ok := toF(m["start"]); ok {
+						st = clampI(int(sv), 0, len(x))
 					}
-					if e < 0 {
-						e += n
+					if ev, ok := toF(m["end"]); ok {
+						en = clampI(int(ev), st, len(x))
 					}
-					if !eok || e > n {
-						e = n
-					}
-					if s < 0 {
-						s = 0
-					}
-					if s > e {
-						s = e
-					}
-					v = x[int(s):int(e)]
+					v = x[st:en]
 					continue
 				}
 				return false
